@@ -24,34 +24,35 @@ structure RngEq (s s' : St) : Prop where
   cstep : s'.cstep = s.cstep
   workers : s'.workers = s.workers
   tsteps : s'.tsteps = s.tsteps
+  locked0Ord : s'.locked0Ord = s.locked0Ord
 
-theorem RngEq.refl (s : St) : RngEq s s := ⟨rfl, rfl, rfl, rfl, rfl, rfl, rfl, rfl, rfl, rfl⟩
+theorem RngEq.refl (s : St) : RngEq s s := ⟨rfl, rfl, rfl, rfl, rfl, rfl, rfl, rfl, rfl, rfl, rfl⟩
 
 theorem RngEq.trans {a b c : St} (h1 : RngEq a b) (h2 : RngEq b c) : RngEq a c :=
   ⟨h2.seed.trans h1.seed, h2.entropy.trans h1.entropy, h2.spawned.trans h1.spawned,
    h2.mainDraws.trans h1.mainDraws, h2.restarted.trans h1.restarted,
    h2.rgenRestored.trans h1.rgenRestored, h2.locked0.trans h1.locked0, h2.cstep.trans h1.cstep,
-   h2.workers.trans h1.workers, h2.tsteps.trans h1.tsteps⟩
+   h2.workers.trans h1.workers, h2.tsteps.trans h1.tsteps, h2.locked0Ord.trans h1.locked0Ord⟩
 
 /-- `RngEq` and the in-flight record `locked` unchanged -/
-def Quiet (s s' : St) : Prop := RngEq s s' ∧ s'.locked = s.locked
+def Quiet (s s' : St) : Prop := RngEq s s' ∧ s'.locked = s.locked ∧ s'.lockedOrd = s.lockedOrd
 
-theorem Quiet.refl (s : St) : Quiet s s := ⟨RngEq.refl s, rfl⟩
+theorem Quiet.refl (s : St) : Quiet s s := ⟨RngEq.refl s, rfl, rfl⟩
 
 theorem Quiet.trans {a b c : St} (h1 : Quiet a b) (h2 : Quiet b c) : Quiet a c :=
-  ⟨h1.1.trans h2.1, h2.2.trans h1.2⟩
+  ⟨h1.1.trans h2.1, h2.2.1.trans h1.2.1, h2.2.2.trans h1.2.2⟩
 
 /-! ### swap, lock, unlock, add_traj -/
 
 theorem swap_quiet (s : St) (t e : Nat) : Quiet s (swap s t e) :=
-  ⟨⟨rfl, rfl, rfl, rfl, rfl, rfl, rfl, rfl, rfl, rfl⟩, rfl⟩
+  ⟨⟨rfl, rfl, rfl, rfl, rfl, rfl, rfl, rfl, rfl, rfl, rfl⟩, rfl, rfl⟩
 
 theorem lock_quiet {s s' : St} {e : Nat} (h : lock s e = .ok s') : Quiet s s' := by
   unfold lock at h
   split at h
   · injection h with h
     subst h
-    exact ⟨⟨rfl, rfl, rfl, rfl, rfl, rfl, rfl, rfl, rfl, rfl⟩, rfl⟩
+    exact ⟨⟨rfl, rfl, rfl, rfl, rfl, rfl, rfl, rfl, rfl, rfl, rfl⟩, rfl, rfl⟩
   · exact absurd h (by simp)
   · exact absurd h (by simp)
 
@@ -60,7 +61,7 @@ theorem unlock_quiet {s s' : St} {e : Nat} (h : unlock s e = .ok s') : Quiet s s
   split at h
   · injection h with h
     subst h
-    exact ⟨⟨rfl, rfl, rfl, rfl, rfl, rfl, rfl, rfl, rfl, rfl⟩, rfl⟩
+    exact ⟨⟨rfl, rfl, rfl, rfl, rfl, rfl, rfl, rfl, rfl, rfl, rfl⟩, rfl, rfl⟩
   · exact absurd h (by simp)
   · exact absurd h (by simp)
 
@@ -77,7 +78,7 @@ theorem addTraj_quiet {s s' : St} {ens : Int} {pn : Nat} {valid : List Rat}
   split at h
   · exact absurd h (by simp)
   refine Quiet.trans ?_ (unlock_quiet h)
-  exact ⟨⟨rfl, rfl, rfl, rfl, rfl, rfl, rfl, rfl, rfl, rfl⟩, rfl⟩
+  exact ⟨⟨rfl, rfl, rfl, rfl, rfl, rfl, rfl, rfl, rfl, rfl, rfl⟩, rfl, rfl⟩
 
 /-! ### sort_trajstate, recording -/
 
@@ -122,7 +123,7 @@ theorem recordFrac_quiet {s s' : St} (h : recordFrac s = .ok s') : Quiet s s' :=
   · exact absurd h (by simp)
   · simp only [Except.ok.injEq] at h
     subst h
-    exact ⟨⟨rfl, rfl, rfl, rfl, rfl, rfl, rfl, rfl, rfl, rfl⟩, rfl⟩
+    exact ⟨⟨rfl, rfl, rfl, rfl, rfl, rfl, rfl, rfl, rfl, rfl, rfl⟩, rfl, rfl⟩
 
 theorem writeRows_quiet : ∀ (l : List Nat) {s s' : St}, writeRows s l = .ok s' → Quiet s s' := by
   intro l
@@ -137,19 +138,21 @@ theorem writeRows_quiet : ∀ (l : List Nat) {s s' : St}, writeRows s l = .ok s'
     unfold writeRows at h
     split at h
     · refine Quiet.trans ?_ (ih h)
-      exact ⟨⟨rfl, rfl, rfl, rfl, rfl, rfl, rfl, rfl, rfl, rfl⟩, rfl⟩
+      exact ⟨⟨rfl, rfl, rfl, rfl, rfl, rfl, rfl, rfl, rfl, rfl, rfl⟩, rfl, rfl⟩
     · exact absurd h (by simp)
 
-/-! ### treat_output: only `locked` changes, by the pops of the completed job's path numbers -/
+/-! ### treat_output: only `locked` / `lockedOrd` change, by the pops of the completed job -/
 
-/-- the pops of `treat_output`'s per-ensemble loop, in order -/
-def popAll (ps : List Picked) (L : List (List Int × List Nat)) : List (List Int × List Nat) :=
-  ps.foldl (fun L p => popLocked p.pn L.length 0 L) L
+/-- the pops of `treat_output`'s per-ensemble loop, in order, on the records and on the ordinals
+    riding with them -/
+def popAll (ps : List Picked) (LO : List (List Int × List Nat) × List Nat) :
+    List (List Int × List Nat) × List Nat :=
+  ps.foldl (fun LO p => (popLocked p.pn LO.1.length 0 LO.1, popLockedOrd p.pn LO.1.length 0 LO.1 LO.2)) LO
 
 theorem perEns_quiet (status : Status) : ∀ (l : List (Picked × List Rat)) {s s' : St}
     {tn tn' : Nat} {pns : List Nat},
     treatOutput.perEns status s tn l = .ok (s', tn', pns) →
-    RngEq s s' ∧ s'.locked = popAll (l.map Prod.fst) s.locked := by
+    RngEq s s' ∧ (s'.locked, s'.lockedOrd) = popAll (l.map Prod.fst) (s.locked, s.lockedOrd) := by
   intro l
   induction l with
   | nil =>
@@ -171,11 +174,11 @@ theorem perEns_quiet (status : Status) : ∀ (l : List (Picked × List Rat)) {s 
       rename_i s4 tn4 pns4 hrec
       simp only [Except.ok.injEq, Prod.mk.injEq] at hp
       obtain ⟨rfl, _, _⟩ := hp
-      obtain ⟨h3, hl3⟩ := addTraj_quiet hadd
+      obtain ⟨h3, hl3, ho3⟩ := addTraj_quiet hadd
       obtain ⟨h4, hl4⟩ := ih hrec
       refine ⟨(RngEq.trans (b := _) ?_ h3).trans h4, ?_⟩
-      · exact ⟨rfl, rfl, rfl, rfl, rfl, rfl, rfl, rfl, rfl, rfl⟩
-      rw [hl4, hl3]
+      · exact ⟨rfl, rfl, rfl, rfl, rfl, rfl, rfl, rfl, rfl, rfl, rfl⟩
+      rw [hl4, hl3, ho3]
       rfl
     · split at hp
       · exact absurd hp (by simp)
@@ -187,19 +190,19 @@ theorem perEns_quiet (status : Status) : ∀ (l : List (Picked × List Rat)) {s 
       rename_i s4 tn4 pns4 hrec
       simp only [Except.ok.injEq, Prod.mk.injEq] at hp
       obtain ⟨rfl, _, _⟩ := hp
-      obtain ⟨h3, hl3⟩ := addTraj_quiet hadd
+      obtain ⟨h3, hl3, ho3⟩ := addTraj_quiet hadd
       obtain ⟨h4, hl4⟩ := ih hrec
       refine ⟨(RngEq.trans (b := _) ?_ h3).trans h4, ?_⟩
-      · exact ⟨rfl, rfl, rfl, rfl, rfl, rfl, rfl, rfl, rfl, rfl⟩
-      rw [hl4, hl3]
+      · exact ⟨rfl, rfl, rfl, rfl, rfl, rfl, rfl, rfl, rfl, rfl, rfl⟩
+      rw [hl4, hl3, ho3]
       rfl
 
 /-- **`treat_output`** leaves the scheduler's seed sequence, spawn counter and stream position alone;
-    `locked` loses what the pops of the job's path numbers remove. -/
+    `locked` (and the ordinals riding with it) lose what the pops of the job's path numbers remove. -/
 theorem treatOutput_quiet {s s' : St} (job : Job) (status : Status) (newW : List (List Rat))
     (fuel : Nat) (pns : List Nat) (it : Nat)
     (ht : treatOutput s job status newW fuel = .ok (s', pns, it)) :
-    RngEq s s' ∧ s'.locked = popAll job.picked s.locked := by
+    RngEq s s' ∧ (s'.locked, s'.lockedOrd) = popAll job.picked (s.locked, s.lockedOrd) := by
   unfold treatOutput at ht
   simp only [] at ht
   generalize hws : (if status = Status.acc then newW else job.picked.map (fun _ => [])) = ws at ht
@@ -224,18 +227,18 @@ theorem treatOutput_quiet {s s' : St} (job : Job) (status : Status) (newW : List
   have hfst : (job.picked.zip ws).map Prod.fst = job.picked := List.map_fst_zip (by omega)
   obtain ⟨h1, hl1⟩ := perEns_quiet status _ hper
   rw [hfst] at hl1
-  obtain ⟨h2, hl2⟩ := recordFrac_quiet hrec
+  obtain ⟨h2, hl2, ho2⟩ := recordFrac_quiet hrec
   have h3 : Quiet s2 s3 := by
     split at hwr
     · exact writeRows_quiet _ hwr
     · simp only [Except.ok.injEq] at hwr
       subst hwr
       exact Quiet.refl _
-  obtain ⟨h4, hl4⟩ := sortTrajstate_quiet fuel hsort
+  obtain ⟨h4, hl4, ho4⟩ := sortTrajstate_quiet fuel hsort
   refine ⟨RngEq.trans (((h1.trans h2).trans h3.1).trans h4) ?_, ?_⟩
-  · exact ⟨rfl, rfl, rfl, rfl, rfl, rfl, rfl, rfl, rfl, rfl⟩
-  show s4.locked = _
-  rw [hl4, h3.2, hl2, hl1]
+  · exact ⟨rfl, rfl, rfl, rfl, rfl, rfl, rfl, rfl, rfl, rfl, rfl⟩
+  show (s4.locked, s4.lockedOrd) = _
+  rw [hl4, ho4, h3.2.1, h3.2.2, hl2, ho2, hl1]
 
 /-! ### counters -/
 
@@ -243,7 +246,7 @@ theorem initiate_quiet (s : St) : Quiet s (initiate s).1 := by
   unfold initiate
   split
   · exact Quiet.refl s
-  · exact ⟨⟨rfl, rfl, rfl, rfl, rfl, rfl, rfl, rfl, rfl, rfl⟩, rfl⟩
+  · exact ⟨⟨rfl, rfl, rfl, rfl, rfl, rfl, rfl, rfl, rfl, rfl, rfl⟩, rfl, rfl⟩
 
 theorem loop_true {s s1 : St} (h : loop s = (s1, true)) : s1 = { s with cstep := s.cstep + 1 } := by
   unfold loop at h
@@ -263,7 +266,7 @@ theorem loadOne_quiet {s s' : St} {ens : Int} {pn : Nat} {valid fr : List Rat}
   simp only [Except.ok.injEq] at h
   subst h
   refine (addTraj_quiet hadd).trans ?_
-  exact ⟨⟨rfl, rfl, rfl, rfl, rfl, rfl, rfl, rfl, rfl, rfl⟩, rfl⟩
+  exact ⟨⟨rfl, rfl, rfl, rfl, rfl, rfl, rfl, rfl, rfl, rfl, rfl⟩, rfl, rfl⟩
 
 theorem loadPlus_quiet : ∀ (l : List (Nat × List Rat × List Rat)) {s s' : St} {i : Nat},
     loadPaths.plus s i l = .ok s' → Quiet s s' := by
@@ -339,6 +342,37 @@ theorem mkPicked_go_streams (child : Stream) : ∀ (pairs : List (Int × Option 
           rw [e1] at this
           exact this
 
+theorem mkPicked_go_ens (child : Stream) : ∀ (pairs : List (Int × Option Nat)) (j : Nat)
+    (ps : List Picked), mkPicked.go child j pairs = .ok ps →
+    ps.map (fun p => (p.ens, some p.pn)) = pairs := by
+  intro pairs
+  induction pairs with
+  | nil =>
+    intro j ps h
+    simp only [mkPicked.go, Except.ok.injEq] at h
+    subst h
+    rfl
+  | cons x rest ih =>
+    intro j ps h
+    obtain ⟨e, opn⟩ := x
+    cases opn with
+    | none => simp [mkPicked.go] at h
+    | some pn =>
+      simp only [mkPicked.go] at h
+      split at h
+      · exact absurd h (by simp)
+      · rename_i ps0 h0
+        simp only [Except.ok.injEq] at h
+        subst h
+        simp only [List.map_cons]
+        rw [ih (j + 1) ps0 h0]
+
+/-- the picked entries list exactly the (ensemble, path) pairs handed to `mkPicked` -/
+theorem mkPicked_ens {s : St} {pairs : List (Int × Option Nat)} {ps : List Picked}
+    (h : mkPicked s pairs = .ok ps) : ps.map (fun p => (p.ens, some p.pn)) = pairs := by
+  unfold mkPicked at h
+  exact mkPicked_go_ens _ pairs 0 ps h
+
 /-- **`mkPicked`**: entry `j` of the job gets `(entropy, [spawned, j])` and `(entropy, [spawned, j, 0])` -/
 theorem mkPicked_streams {s : St} {pairs : List (Int × Option Nat)} {ps : List Picked}
     (h : mkPicked s pairs = .ok ps) :
@@ -397,31 +431,41 @@ theorem pickCore_quiet {s s' : St} {o : PickOutcome} {pairs : List (Int × Optio
     · exact Or.inr (Or.inl ⟨_, rfl⟩)
     · exact Or.inl ⟨_, rfl⟩
 
-/-- what issuing one job does to the scheduler's seed sequence -/
-structure Issue (s s' : St) (ps : List Picked) : Prop where
+/-- streams of ordinal `ord` in the seed sequence with entropy `en`, entry by entry -/
+def StreamsAt (en ord : Nat) (ps : List Picked) : Prop :=
+  ∀ j p, ps[j]? = some p → p.rgen = moveStream en ord j ∧ p.rgenEng = engStream en ord j
+
+/-- what issuing one job does to the scheduler's seed sequence: the job carries the streams of the
+    ordinal `ord` that is put on record with it; either `ord` is the next fresh ordinal and the
+    counter advances (`fresh`), or the job is re-issued under the ordinal on record and the counter
+    stays -/
+structure Issue (s s' : St) (ps : List Picked) (ord : Nat) (fresh : Bool) : Prop where
   seed : s'.seed = s.seed
   entropy : s'.entropy = s.entropy
-  spawned : s'.spawned = s.spawned + 1
   restarted : s'.restarted = s.restarted
   cstep : s'.cstep = s.cstep
   workers : s'.workers = s.workers
   tsteps : s'.tsteps = s.tsteps
-  streams : ∀ j p, ps[j]? = some p →
-    p.rgen = moveStream s.entropy s.spawned j ∧ p.rgenEng = engStream s.entropy s.spawned j
+  streams : StreamsAt s.entropy ord ps
   locked : ∃ entry, s'.locked = s.locked ++ [entry]
+  lockedOrd : s'.lockedOrd = s.lockedOrd ++ [ord]
+  kind : (fresh = true ∧ ord = s.spawned ∧ s'.spawned = s.spawned + 1) ∨
+         (fresh = false ∧ s'.spawned = s.spawned ∧ s.locked0Ord.head? = some (some ord))
+  pend : s'.locked0Ord = s.locked0Ord ∨ s'.locked0Ord = s.locked0Ord.tail
 
 /-- **`pick()`**: one child spawned, streams `(entropy, [spawned, j])`, the scheduler stream advanced
-    by exactly the returned requests, one record appended to `locked`. -/
+    by exactly the returned requests, one record (with the ordinal) appended to `locked`. -/
 theorem pick_issue {s s' : St} {o : PickOutcome} {ps : List Picked} {ds : List Draw}
     (hp : pick s o = .ok (s', ps, ds)) :
-    Issue s s' ps ∧ s'.mainDraws = s.mainDraws + ds.length ∧ s'.rgenRestored = s.rgenRestored ∧
-      s'.locked0 = s.locked0 ∧ DrawShape ds ∧
-      ∃ es, s'.locked = s.locked ++ [(es, ps.map (·.pn))] := by
+    Issue s s' ps s.spawned true ∧ s'.mainDraws = s.mainDraws + ds.length ∧
+      s'.rgenRestored = s.rgenRestored ∧
+      s'.locked0 = s.locked0 ∧ s'.locked0Ord = s.locked0Ord ∧ DrawShape ds ∧
+      s'.locked = s.locked ++ [(ps.map (·.ens), ps.map (·.pn))] := by
   unfold pick at hp
   split at hp
   · exact absurd hp (by simp)
   rename_i s1 pairs ds1 hpc
-  obtain ⟨⟨q, ql⟩, hshape⟩ := pickCore_quiet hpc
+  obtain ⟨⟨q, ql, qo⟩, hshape⟩ := pickCore_quiet hpc
   split at hp
   · exact absurd hp (by simp)
   rename_i ps1 hmk
@@ -429,18 +473,23 @@ theorem pick_issue {s s' : St} {o : PickOutcome} {ps : List Picked} {ds : List D
   obtain ⟨rfl, rfl, rfl⟩ := hp
   have hst := mkPicked_streams hmk
   rw [q.entropy, q.spawned] at hst
-  refine ⟨⟨q.seed, q.entropy, ?_, q.restarted, q.cstep, q.workers, q.tsteps, hst,
-      ⟨(pairs.map (·.1), ps1.map (·.pn)), ?_⟩⟩, ?_,
-    q.rgenRestored, q.locked0, hshape, ⟨pairs.map (·.1), ?_⟩⟩
-  · show s1.spawned + 1 = s.spawned + 1
-    rw [q.spawned]
+  refine ⟨⟨q.seed, q.entropy, q.restarted, q.cstep, q.workers, q.tsteps, hst,
+      ⟨(pairs.map (·.1), ps1.map (·.pn)), ?_⟩, ?_, Or.inl ⟨rfl, rfl, ?_⟩, Or.inl q.locked0Ord⟩, ?_,
+    q.rgenRestored, q.locked0, q.locked0Ord, hshape, ?_⟩
   · show s1.locked ++ _ = s.locked ++ _
     rw [ql]
+  · show s1.lockedOrd ++ [s1.spawned] = s.lockedOrd ++ [s.spawned]
+    rw [qo, q.spawned]
+  · show s1.spawned + 1 = s.spawned + 1
+    rw [q.spawned]
   · show s1.mainDraws + drawCount ds1 = s.mainDraws + ds1.length
     rw [q.mainDraws]
     rfl
-  · show s1.locked ++ _ = s.locked ++ _
+  · show s1.locked ++ [(pairs.map (·.1), ps1.map (·.pn))] = s.locked ++ _
     rw [ql]
+    have := congrArg (List.map Prod.fst) (mkPicked_ens hmk)
+    simp only [List.map_map, Function.comp_def] at this
+    rw [← this]
 
 theorem reissue_go_quiet : ∀ (l : List (Nat × Nat)) {s s' : St} {pairs : List (Int × Option Nat)},
     reissue.go s l = .ok (s', pairs) → Quiet s s' := by
@@ -479,6 +528,9 @@ structure RngEqUpToDraws (s s' : St) : Prop where
   workers : s'.workers = s.workers
   tsteps : s'.tsteps = s.tsteps
   locked : s'.locked = s.locked
+  lockedOrd : s'.lockedOrd = s.lockedOrd
+  locked0 : s'.locked0 = s.locked0
+  locked0Ord : s'.locked0Ord = s.locked0Ord
 
 theorem restoreStreamOnce_idle {s : St} (d : Nat) (h : s.restarted = false ∨ s.rgenRestored = true) :
     restoreStreamOnce s d = s := by
@@ -490,37 +542,109 @@ theorem restoreStreamOnce_idle {s : St} (d : Nat) (h : s.restarted = false ∨ s
     · rw [h] at hc; exact absurd hc.2 (by simp)
   · rfl
 
-/-- **`pick_lock()`** (both branches: a fresh pick, or the re-issue of a job recorded in the restart
-    file): one child spawned, streams `(entropy, [spawned, j])`. -/
-theorem pickLock_issue {s s' : St} {o : PickOutcome} {d : Nat} {ps : List Picked} {ds : List Draw}
-    (hp : pickLock s o d = .ok (s', ps, ds)) : Issue s s' ps := by
+theorem restoreStreamOnce_seq (s : St) (d : Nat) : RngEqUpToDraws s (restoreStreamOnce s d) := by
+  unfold restoreStreamOnce
+  split
+  · exact ⟨rfl, rfl, rfl, rfl, rfl, rfl, rfl, rfl, rfl, rfl, rfl⟩
+  · exact ⟨rfl, rfl, rfl, rfl, rfl, rfl, rfl, rfl, rfl, rfl, rfl⟩
+
+/-- the re-issue branch of `pick_lock()`, spelled out -/
+theorem pickLock_reissue {s s' : St} {o : PickOutcome} {d : Nat} {ps : List Picked} {ds : List Draw}
+    {enss0 trajs0 : List Nat} {rest : List (List Nat × List Nat)}
+    (hl0 : s.locked0 = (enss0, trajs0) :: rest) (hp : pickLock s o d = .ok (s', ps, ds)) :
+    ∃ s1 pairs, reissue { s with locked0 := rest, locked0Ord := s.locked0Ord.tail } enss0 trajs0
+        = .ok (s1, pairs) ∧
+      mkPickedAt s1 (reissueOrd s s1) pairs = .ok ps ∧ s' = reissued s s1 enss0 trajs0 ∧ ds = [] := by
   unfold pickLock at hp
+  rw [hl0] at hp
+  simp only [] at hp
   split at hp
-  · -- nothing left to re-issue: restore the stream position (once), then `pick()`
+  · exact absurd hp (by simp)
+  rename_i s1 pairs hre
+  split at hp
+  · exact absurd hp (by simp)
+  rename_i ps1 hmk
+  simp only [Except.ok.injEq, Prod.mk.injEq] at hp
+  obtain ⟨rfl, rfl, rfl⟩ := hp
+  exact ⟨s1, pairs, hre, hmk, rfl, rfl⟩
+
+theorem reissue_quiet {s s1 : St} {enss0 trajs0 : List Nat} {pairs : List (Int × Option Nat)}
+    (h : reissue s enss0 trajs0 = .ok (s1, pairs)) : Quiet s s1 := by
+  unfold reissue at h
+  exact reissue_go_quiet _ h
+
+/-- **`pick_lock()`** (both branches): the job carries the streams of the ordinal put on record with
+    it.  A fresh pick (or the re-issue of a record without ordinal) takes the next ordinal and
+    advances the counter; the re-issue of a record with ordinal `ord` uses `ord` and leaves the
+    counter alone. -/
+theorem pickLock_issue {s s' : St} {o : PickOutcome} {d : Nat} {ps : List Picked} {ds : List Draw}
+    (hp : pickLock s o d = .ok (s', ps, ds)) : ∃ ord fresh, Issue s s' ps ord fresh := by
+  cases hl0 : s.locked0 with
+  | nil =>
+    unfold pickLock at hp
+    rw [hl0] at hp
+    simp only [] at hp
     obtain ⟨hi, _⟩ := pick_issue hp
-    have hr : RngEqUpToDraws s (restoreStreamOnce s d) := by
-      unfold restoreStreamOnce
-      split
-      · exact ⟨rfl, rfl, rfl, rfl, rfl, rfl, rfl, rfl⟩
-      · exact ⟨rfl, rfl, rfl, rfl, rfl, rfl, rfl, rfl⟩
-    exact ⟨hi.seed.trans hr.seed, hi.entropy.trans hr.entropy, by rw [hi.spawned, hr.spawned],
+    have hr := restoreStreamOnce_seq s d
+    refine ⟨s.spawned, true, hi.seed.trans hr.seed, hi.entropy.trans hr.entropy,
       hi.restarted.trans hr.restarted, hi.cstep.trans hr.cstep, hi.workers.trans hr.workers,
-      hi.tsteps.trans hr.tsteps, by rw [← hr.entropy, ← hr.spawned]; exact hi.streams,
-      by rw [← hr.locked]; exact hi.locked⟩
-  · rename_i enss0 trajs0 rest hl0
-    split at hp
-    · exact absurd hp (by simp)
-    rename_i s1 pairs hre
-    split at hp
-    · exact absurd hp (by simp)
-    rename_i ps1 hmk
-    simp only [Except.ok.injEq, Prod.mk.injEq] at hp
-    obtain ⟨rfl, rfl, _⟩ := hp
-    unfold reissue at hre
-    obtain ⟨q, ql⟩ := reissue_go_quiet _ hre
+      hi.tsteps.trans hr.tsteps, ?_, ?_, ?_, Or.inl ⟨rfl, rfl, ?_⟩, ?_⟩
+    rotate_left 4
+    · rcases hi.pend with h | h
+      · exact Or.inl (h.trans hr.locked0Ord)
+      · exact Or.inr (by rw [h, hr.locked0Ord])
+    · have := hi.streams
+      rw [hr.entropy, hr.spawned] at this
+      exact this
+    · rw [← hr.locked]; exact hi.locked
+    · rw [← hr.lockedOrd, ← hr.spawned]; exact hi.lockedOrd
+    · rcases hi.kind with ⟨_, _, h3⟩ | ⟨h1, _⟩
+      · rw [h3, hr.spawned]
+      · exact absurd h1 (by simp)
+  | cons r rest =>
+    obtain ⟨enss0, trajs0⟩ := r
+    obtain ⟨s1, pairs, hre, hmk, rfl, _⟩ := pickLock_reissue hl0 hp
+    obtain ⟨q, ql, qo⟩ := reissue_quiet hre
+    unfold mkPickedAt at hmk
     have hst := mkPicked_streams hmk
-    exact ⟨q.seed, q.entropy, by show s1.spawned + 1 = _; rw [q.spawned], q.restarted, q.cstep,
-      q.workers, q.tsteps, by rw [q.entropy, q.spawned] at hst; exact hst,
-      ⟨_, by show s1.locked ++ _ = _; rw [ql]⟩⟩
+    have hst' : StreamsAt s.entropy (reissueOrd s s1) ps := by
+      intro j p hp'
+      have := hst j p hp'
+      rw [← q.entropy]
+      exact this
+    cases hh : s.locked0Ord.head?.join with
+    | none =>
+      have hord : reissueOrd s s1 = s.spawned := by
+        unfold reissueOrd; rw [hh]; exact q.spawned
+      refine ⟨s.spawned, true, q.seed, q.entropy, q.restarted, q.cstep, q.workers, q.tsteps,
+        by rw [← hord]; exact hst',
+        ⟨(enss0.map (fun (e : Nat) => ((e : Int) - (off : Int))), trajs0), ?_⟩, ?_, Or.inl ⟨rfl, rfl, ?_⟩, Or.inr q.locked0Ord⟩
+      · show s1.locked ++ _ = s.locked ++ _
+        rw [ql]
+      · show s1.lockedOrd ++ [reissueOrd s s1] = _
+        rw [qo, hord]
+      · show (if (s.locked0Ord.head?.join).isSome then s1.spawned else s1.spawned + 1) = _
+        rw [hh, q.spawned]
+        rfl
+    | some ord =>
+      have hord : reissueOrd s s1 = ord := by
+        unfold reissueOrd; rw [hh]; rfl
+      have hhead : s.locked0Ord.head? = some (some ord) := by
+        cases h2 : s.locked0Ord.head? with
+        | none => rw [h2] at hh; simp at hh
+        | some x =>
+          rw [h2] at hh
+          simp only [Option.join_some] at hh
+          rw [hh]
+      refine ⟨ord, false, q.seed, q.entropy, q.restarted, q.cstep, q.workers, q.tsteps,
+        by rw [← hord]; exact hst',
+        ⟨(enss0.map (fun (e : Nat) => ((e : Int) - (off : Int))), trajs0), ?_⟩, ?_, Or.inr ⟨rfl, ?_, hhead⟩, Or.inr q.locked0Ord⟩
+      · show s1.locked ++ _ = s.locked ++ _
+        rw [ql]
+      · show s1.lockedOrd ++ [reissueOrd s s1] = _
+        rw [qo, hord]
+      · show (if (s.locked0Ord.head?.join).isSome then s1.spawned else s1.spawned + 1) = _
+        rw [hh, q.spawned]
+        rfl
 
 end Infretis.Repex
